@@ -17,7 +17,7 @@ def valueSym (v : Nat) : SymE := ⟨0, v, 0, 0, 0, 0⟩
 
 /-- the two encoders agree: C08's value-only entry is C03's encoding of `valueSym v` -/
 theorem rel_encSym_eq (le : Bool) (cls : Nat) (v : Nat) : rel_encSym le cls v = encSym le cls (valueSym v) := by
-  have h1 : encNat le 1 0 = [0] := by rw [encNat_one]; rfl
+  have h1 : encNat le 1 0 = [0] := by rw [sym_encNat_one]; rfl
   unfold rel_encSym encSym valueSym
   split <;> simp [h1]
 
